@@ -856,13 +856,25 @@ func (x *c53Run) opReorg(rt *rapid.T) {
 		return
 	}
 	p := ur.Start + uint64(rapid.IntRange(0, int(ur.End-ur.Start)-1).Draw(rt, "reorgPeriod"))
+	if rapid.Bool().Draw(rt, "atFork") { // prefer a period whose committee signed more than one successor
+		for q := ur.Start; q < ur.End; q++ {
+			if c := x.stored(q); c != nil && len(c.children) > 1 {
+				p = q
+				if rapid.Bool().Draw(rt, "firstFork") {
+					break
+				}
+			}
+		}
+	}
 	par := x.stored(p)
 	if par == nil {
 		return
 	}
+	cur := x.stored(p + 1)
+	preferOther := rapid.Bool().Draw(rt, "preferOther")
 	var cands []*c53Upd
 	for _, g := range x.w.pool {
-		if g.parent == par {
+		if g.parent == par && !(preferOther && len(par.children) > 1 && g.child == cur) {
 			cands = append(cands, g)
 		}
 	}
@@ -987,7 +999,11 @@ func (x *c53Run) opForged(rt *rapid.T) {
 
 func (x *c53Run) opCheckpoint(rt *rapid.T, genuine bool) {
 	w := x.w
-	q := w.p0 + uint64(rapid.IntRange(0, w.nper-1).Draw(rt, "cpPeriod"))
+	hi := w.nper - 1
+	if _, init := x.chain.NextSyncPeriod(); !init && genuine {
+		hi = 3 // first checkpoint early, so that there is a chain to follow
+	}
+	q := w.p0 + uint64(rapid.IntRange(0, hi).Draw(rt, "cpPeriod"))
 	ver := rapid.SampledFrom([]string{"", "electra", "deneb"}).Draw(rt, "cpVersion")
 	b := w.mkBootstrap(w.A[q], w.A[q+1], ver)
 	label := "genuine"
@@ -1255,7 +1271,7 @@ func (x *c53Run) opHeader(rt *rapid.T) {
 }
 
 var c53Ops = []string{
-	"sync", "sync", "sync", "sync", "sync", "sync", "sync",
+	"sync", "sync", "sync", "sync", "sync", "sync", "sync", "sync", "sync", "sync",
 	"update", "update", "update",
 	"reorg", "reorg", "reorg",
 	"forged", "forged", "forged", "forged", "forged",
@@ -1268,17 +1284,17 @@ func c53Case(rt *rapid.T, st *vs.S) {
 	w := c53NewWorld(rt)
 	x := &c53Run{w: w, db: memorydb.New(), clock: new(mclock.Simulated)}
 	// simulated system clock: a drawn position in (or beyond) the generated periods
-	k := rapid.SampledFrom([]int{0, 1, 2, 3, 5, 8, 11, 11, 11, 11, 11}).Draw(rt, "clockPeriod")
+	k := rapid.SampledFrom([]int{0, 2, 4, 6, 8, 11, 11, 11, 11, 11, 11, 11, 11, 11}).Draw(rt, "clockPeriod")
 	startSlot := (w.p0+uint64(k))*c53SlotsPerPeriod + uint64(rapid.IntRange(0, c53SlotsPerPeriod-1).Draw(rt, "clockOff"))
 	x.clock.Run(time.Duration(w.genesis+startSlot*12) * time.Second)
 	x.chain = NewTestCommitteeChain(x.db, &w.cfg, w.thr, w.enforce, x.clock)
 	x.logf("world p0=%d genesis=%d forks=%d pool=%d clockSlot=%d", w.p0, w.genesis, len(w.forks), len(w.pool), startSlot)
 
-	maxOps := 30
+	maxOps := 40
 	if vs.Thorough() {
-		maxOps = 60
+		maxOps = 80
 	}
-	nops := rapid.IntRange(5, maxOps).Draw(rt, "nops")
+	nops := rapid.IntRange(8, maxOps).Draw(rt, "nops")
 	for i := 0; i < nops; i++ {
 		switch rapid.SampledFrom(c53Ops).Draw(rt, "op") {
 		case "sync":
